@@ -165,6 +165,17 @@ class DegreeInterp:
                 self._block(s.body, env, cls, results)
                 continue
             if isinstance(s, ast.Expr):
+                c = s.value
+                if isinstance(c, ast.Call) and isinstance(c.func, ast.Attribute) and c.func.attr in ("append", "extend") \
+                        and isinstance(c.func.value, ast.Name) and len(c.args) == 1:
+                    # a local list filled element by element has the (joined) degree of what is put into it
+                    v = self.ev(c.args[0], env, cls)
+                    if c.func.attr == "extend" and v.elems:
+                        v = v.elems[0]
+                    cur = env.get(c.func.value.id)
+                    empty = cur is None or cur.why == "polymorphic" or (cur.elems is not None and not cur.elems)
+                    env[c.func.value.id] = Val(v.deg, why=v.why) if empty else self.join(Val(cur.deg, why=cur.why), v)
+                    continue
                 self.ev(s.value, env, cls)
                 continue
             if isinstance(s, ast.Raise):
